@@ -407,6 +407,9 @@ class BaseEMSurvey(ObjectBase, ABC):  # pylint: disable=too-many-public-methods
 
                         if isinstance(prop_group, PropertyGroup):
                             prop_groups.append(prop_group.name)
+                        else:
+                            # held by the complement entity
+                            prop_groups.append(str(value))
 
                     metadata["EM Dataset"]["Property groups"] = prop_groups
 
